@@ -34,11 +34,11 @@ type navReq struct {
 }
 
 type navStats struct {
-	steps, advances                           int
-	skipWithin, skipAcross, skipExcluded      int
-	oneHit, general, empty, replaced, atEnd   bool
-	chunksInList                              int
-	trace                                     []string
+	steps, advances                         int
+	skipWithin, skipAcross, skipExcluded    int
+	oneHit, general, empty, replaced, atEnd bool
+	chunksInList                            int
+	trace                                   []string
 }
 
 func flagsStr(fl [3]bool) string {
@@ -149,9 +149,9 @@ func navigate(c *runner.Ctx, r *rand.Rand, q navReq) (pl segment.PostingsList, p
 	if q.stopAt < 1 {
 		total = int(float64(total) * q.stopAt)
 	}
-	pos := -1         // index into live of the last returned posting
-	lastRet := -1     // last returned document number
-	prevTarget := 0   // targets are non-decreasing
+	pos := -1       // index into live of the last returned posting
+	lastRet := -1   // last returned document number
+	prevTarget := 0 // targets are non-decreasing
 	numDocs := len(x.Docs)
 	fullIdx := map[int]int{}
 	for i, d := range full {
